@@ -82,7 +82,11 @@ def payloadLen (p : Bytes) : Nat :=
 def showOut (ssrc pt seq : Nat) (b : Bytes) : String :=
   s!"out ssrc={ssrc} pt={pt} seq={seq} pkt={showHex b}"
 
-/-- flexint: `new n= f= ssrc= fpt= fssrc=` | `w pkt= [reuse=1] [fail=i,j,…]`. -/
+/-- flexint: `new n= f= ssrc= fpt= fssrc=` | `w pkt= [reuse=1] [fail=i,j,…] [wire=1]`.
+`wire=1`: an interceptor further out in the chain may rewrite the header before the FEC interceptor sees the packet
+(the TWCC header extension), so the bytes are not the model's to predict: the calls of the bottom writer are printed
+without them (stream, payload type, sequence number, outcome) and the harness decodes every repair packet against
+the packets as they reached the writer. -/
 def intComponent : Component where
   σ := Option Icpt
   init := none
@@ -100,8 +104,10 @@ def intComponent : Component where
       match s, (lookup fs "pkt").bind hexBytes, natList ((lookup fs "fail").getD "-") with
       | some st, some p, some fail =>
         let (st', media, fecs) := st.write p
-        let calls := media.map (fun m => showOut (ssrcOf m) (m.getD 1 0 % 128) (seqOf m) m)
-          ++ fecs.map (fun q => showOut q.ssrc q.pt q.seq q.marshal)
+        let showC := fun (ssrc pt seq : Nat) (b : Bytes) =>
+          if lookup fs "wire" == some "1" then s!"out ssrc={ssrc} pt={pt} seq={seq}" else showOut ssrc pt seq b
+        let calls := media.map (fun m => showC (ssrcOf m) (m.getD 1 0 % 128) (seqOf m) m)
+          ++ fecs.map (fun q => showC q.ssrc q.pt q.seq q.marshal)
         let (oks, n, errs) := writeOutcome calls.length fail (payloadLen p)
         let chk :=
           if fecs.isEmpty then [] else
